@@ -147,4 +147,10 @@ def r4_permanence(ctx):
     r.floor("remove_coin sites", n, 3)
 
 
-RULES = [r1_faucet_first, r2_mainnet, r3_dedup, r4_permanence]
+def shared(ctx):
+    from rules.engine import core
+    from rules.props import c01
+    core.import_rules(ctx, [c01.r2_exemption_table], "X01")
+
+
+RULES = [r1_faucet_first, r2_mainnet, r3_dedup, r4_permanence, shared]
